@@ -24,6 +24,9 @@ import BioCantor.Proofs.AlgDistance
 import BioCantor.Proofs.AlgMisc
 import BioCantor.Proofs.AlgMinus
 import BioCantor.Proofs.AlgContains
+import BioCantor.Proofs.AlgSort
+import BioCantor.Proofs.AlgCgranges
+import BioCantor.Proofs.AlgEq
 namespace BioCantor.Props.C02
 open BioCantor BioCantor.Spec BioCantor.Model BioCantor.Proofs
 
@@ -167,6 +170,60 @@ theorem resetStrand_spec (a : PLoc) (ha : WFP a) (ns : Strand) :
     beyond the parent's sequence. -/
 theorem shift_spec (a : PLoc) (ha : WFP a) (k : Int) : okShift a k (ans (shiftP a k)) = true :=
   shiftP_ok a ha k
+
+/-- T11a (`SingleInterval.compare` / `__lt__`): the comparison used by `sorted(blocks)` in compound ∪ compound is a
+    strict weak order on the key (parent id or `""`, start, end): irreflexive, transitive, and two blocks neither of
+    which is less than the other have the same key — so the stable sort is well defined. -/
+theorem compare_strict_weak_order :
+    (∀ x, singleLt x x = false) ∧
+    (∀ x y z, singleLt x y = true → singleLt y z = true → singleLt x z = true) ∧
+    (∀ x y, singleLt x y = false → singleLt y x = false → Proofs.Sort.key x = Proofs.Sort.key y) :=
+  Proofs.Sort.singleLt_strict_weak
+
+/-- T11b: `sorted(blocks)` returns a permutation of the blocks in which no later block is less than an earlier one. -/
+theorem sorted_blocks_sorted (l : List (Blk × PKey)) :
+    (sortSingles l).Perm l ∧ (sortSingles l).Pairwise (fun x y => singleLt y x = false) :=
+  ⟨Proofs.Sort.sortSingles_perm l, Proofs.Sort.sortSingles_sorted l⟩
+
+/-- T11c: with compatible parents (the only case that reaches the sort since the two-sided parent test) compound ∪
+    compound merges the blocks of both operands in `(start, end)` order — the order of the plus-strand constructor. -/
+theorem unionCC_merge_order (la lb : List Blk) (pa pb : PKey) (h : sameParent pa pb = true) :
+    (sortSingles (la.map (fun x => (x, pa)) ++ lb.map (fun x => (x, pb)))).map (·.1) =
+      sortBlocks .plus (la ++ lb) :=
+  Proofs.Sort.unionCC_order la lb pa pb h
+
+/-- T12a (cgranges branch of `_intersection_compound_interval`, proof only — cgranges is not installed): when no
+    block of either operand is zero-length the interval-tree branch returns exactly what the pairwise branch returns
+    (for which `intersection_spec` is proved). Assumes the documented query semantics `s < en ∧ st < e`. -/
+theorem cgranges_branch_eq_pairwise (la lb : Loc) (ms fs : Bool)
+    (hva : ∀ x ∈ la.blocks, x.1 < x.2) (hvb : ∀ y ∈ lb.blocks, y.1 < y.2) :
+    isectCCcgr la lb ms fs = isectCC la lb ms fs :=
+  Proofs.Cgr.isectCCcgr_eq la lb ms fs hva hvb
+
+/-- T12b: with a zero-length block strictly inside a block of the other operand the cgranges branch raises
+    EmptyLocationException (the tree reports the pair, its intersection is EmptyLocation, `.start` raises) where the
+    pairwise branch answers the intersection — a latent difference between the two branches of the source. -/
+theorem cgranges_branch_zero_length_raises :
+    isectCCcgr ⟨[(2, 2), (5, 8)], .plus⟩ ⟨[(0, 10)], .plus⟩ true false = .error .EmptyLocation ∧
+    isectCC ⟨[(2, 2), (5, 8)], .plus⟩ ⟨[(0, 10)], .plus⟩ true false = .ok (.single (5, 8) .plus) :=
+  Proofs.Cgr.isectCCcgr_zero_length_raises
+
+/-- T13a (`__eq__` / `__hash__`): two locations are equal iff they are of the same kind (a one-block CompoundInterval
+    is not a SingleInterval), have the same blocks in the same order, the same strand and parents equal except
+    location; and equal locations have equal hash tuples. -/
+theorem eq_hash_spec (a b : PLoc) (ha : WFP a) (hb : WFP b) : okEq a b (some (eqHashP a b)) = true :=
+  Proofs.Eq.eqHashP_ok a b ha hb
+
+/-- T13b: `==` is reflexive and symmetric … -/
+theorem eq_refl_symm (a b : PLoc) (ha : WFP a) (hb : WFP b) :
+    locEqP a a = true ∧ locEqP a b = locEqP b a :=
+  ⟨Proofs.Eq.locEqP_refl a ha, Proofs.Eq.locEqP_symm a b ha hb⟩
+
+/-- T13c: … but not transitive: a parent with grand-parent g1, the same parent without grand-parent, and the same parent
+    with grand-parent g2 (grand-parents are compared only when both are known). The hashes of all three coincide. -/
+theorem eq_not_transitive :
+    ∃ a b c : PLoc, WFP a ∧ WFP b ∧ WFP c ∧ locEqP a b = true ∧ locEqP b c = true ∧ locEqP a c = false :=
+  Proofs.Eq.locEqP_not_transitive
 
 -- non-vacuity of the hypotheses: a minus-strand layout with a zero-length block, a 0-bp gap and a nested block, on a
 -- parent with sequence and a grand-parent
